@@ -41,7 +41,10 @@ CONSTANTS Indents, Widths, LineBreaks, Encodings, Streams, ExplStart, ExplEnd, V
           LongStyles,     \* ... and the styles requested for them ("P" none, "S" single-quoted, "D" double-quoted)
           FixD12,         \* BOOLEAN: check_simple_key also bounds the WRITTEN length of the key (fix_proposals/D12.diff)
           Anchors,        \* BOOLEAN: the first node of a document may carry an anchor, later nodes may be aliases
-          ExplicitTags,   \* BOOLEAN: nodes may carry a tag that is not implicit
+          ExplicitTags,   \* BOOLEAN: nodes may carry a tag that is not implicit (tag:yaml.org,2002:foo)
+          TagIds,         \* further explicit tags, named "p" \o "rel": related to the prefix p \in "1" ('!'), "2" ('tag:yaml.org,2002:'),
+                          \* "X", "Y", "U" (the prefixes the tags option can declare) as rel \in "e" proper extension (p + 'foo'),
+                          \* "q" EQUAL to it, "p" proper prefix of it (p without its last character); <<"-", "u">> unrelated
           MaxEvents, MaxDepth, MaxDocs
 
 VARIABLES opt,            \* the options as the caller passed them
@@ -134,7 +137,19 @@ StyleOf(ev) == IF IsLong(ev) THEN (CASE ev.y = "S" -> "'" [] ev.y = "D" -> "\"" 
 \* implicit = (plain resolves to the tag, non-plain resolves to the tag) as the Serializer computes them for str values
 Imp0(ev) == ~ev.t /\ ev.s # "e"
 Imp1(ev) == ~ev.t /\ ev.s # "z"
-TagLen == 5                                                \* "!!str"
+\* tags and tag prefixes: the fixed strings the classes stand for, and their lengths (TLC cannot take a string apart)
+NoTag == <<"-", "-">>
+\* a configuration file names the tag classes by two letters ("2q"); here they are pairs
+AllTagIds == {<<p, r>> : p \in {"1", "2", "X", "Y", "U", "-"}, r \in {"e", "q", "p", "u"}}
+TagOfName(x) == CHOOSE id \in AllTagIds : id[1] \o id[2] = x
+PrefixStr(p) == CASE p = "1" -> "!" [] p = "2" -> "tag:yaml.org,2002:" [] p = "X" -> "tag:x.org,2002:" [] p = "Y" -> "!local-" [] p = "U" -> "tag:U.org,2002:"
+PrefixLen(p) == CASE p = "1" -> 1 [] p = "2" -> 18 [] p = "X" -> 15 [] p = "Y" -> 7 [] p = "U" -> 15
+PreStr(p)    == CASE p = "2" -> "tag:yaml.org,2002" [] p = "X" -> "tag:x.org,2002" [] p = "Y" -> "!local" [] p = "U" -> "tag:U.org,2002"
+HandleOf(p)  == CASE p = "1" -> "!" [] p = "2" -> "!!" [] p = "X" -> "!x!" [] p = "Y" -> "!y!" [] p = "U" -> "!u!"
+HandleLen(p) == IF p = "1" THEN 1 ELSE IF p = "2" THEN 2 ELSE 3
+Rank(p)      == CASE p = "1" -> 1 [] p = "Y" -> 2 [] p = "X" -> 3 [] p = "2" -> 4 [] p = "U" -> 5       \* sorted(self.tag_prefixes.keys())
+\* the prefixes in force in a document: the two defaults and what the tags option declares
+InForce(o) == {"1", "2"} \cup (CASE o.tags = "T1" -> {"X"} [] o.tags = "T2" -> {"X", "Y"} [] o.tags = "TU" -> {"U"} [] OTHER -> {})
 AnchorLen == 6                                             \* "&id001"
 
 Analyze(t, au) ==
@@ -360,7 +375,7 @@ WriteFolded(r, t, bi, bw) ==
 (***************************************************************************)
 (* the emitter: events, queue, contexts                                    *)
 (***************************************************************************)
-NoEv == [k |-> "-", f |-> FALSE, s |-> "-", a |-> FALSE, t |-> FALSE, n |-> 0, y |-> "P"]
+NoEv == [k |-> "-", f |-> FALSE, s |-> "-", a |-> FALSE, t |-> FALSE, g |-> NoTag, n |-> 0, y |-> "P"]
 Event(k) == [NoEv EXCEPT !.k = k]
 IsColl(ev) == ev.k \in {"SequenceStart", "MappingStart"}
 IsCollEnd(ev) == ev.k \in {"SequenceEnd", "MappingEnd"}
@@ -395,6 +410,24 @@ CheckEmptySequence(ev, nx) == ev.k = "SequenceStart" /\ nx.k = "SequenceEnd"
 CheckEmptyMapping(ev, nx)  == ev.k = "MappingStart" /\ nx.k = "MappingEnd"
 HasTag(ev) == ~(ev.k = "Scalar" /\ ev.s = "z")                \* every other node event carries a tag, as the Serializer's do
 CheckEmptyDocument(nx)     == nx.k = "Scalar" /\ ~nx.a /\ (~HasTag(nx) \/ Imp0(nx)) /\ TextOf(nx) = <<>>
+TagName(ev) == IF ev.t THEN "foo" ELSE IF ev.k = "Scalar" THEN "str" ELSE IF ev.k = "SequenceStart" THEN "seq" ELSE "map"
+\* the tag of a node event as <<p, rel>> (an implicit tag is a proper extension of the secondary prefix) and as a string
+TagId(ev) == IF ev.g # NoTag THEN ev.g ELSE <<"2", "e">>
+FullTag(ev) == LET id == TagId(ev) IN
+  CASE id[2] = "e" -> PrefixStr(id[1]) \o TagName(ev) [] id[2] = "q" -> PrefixStr(id[1]) [] id[2] = "p" -> PreStr(id[1]) [] OTHER -> "x-private:tag"
+FullLen(ev) == LET id == TagId(ev) IN
+  CASE id[2] = "e" -> PrefixLen(id[1]) + 3 [] id[2] = "q" -> PrefixLen(id[1]) [] id[2] = "p" -> PrefixLen(id[1]) - 1 [] OTHER -> 13
+\* prepare_tag: "tag.startswith(prefix) and (prefix == '!' or len(prefix) < len(tag))", the last prefix in sorted order wins
+Matches(P, id) == IF P = "1" THEN id[1] \in {"1", "Y"} ELSE P = id[1] /\ id[2] = "e"
+PrepareTag(ev, o) ==
+  LET id == TagId(ev)
+      ms == {P \in InForce(o) : Matches(P, id)}
+      P == CHOOSE x \in ms : \A y \in ms : Rank(y) <= Rank(x)
+  IN  IF id = <<"1", "q">> THEN [h |-> "", sfx |-> "!", len |-> 1]                                   \* if tag == '!': return tag
+      ELSE IF ms = {} THEN [h |-> "", sfx |-> FullTag(ev), len |-> 3 + FullLen(ev) + (IF id[1] = "U" THEN 5 ELSE 0)]   \* !<...>, non-ASCII %-escaped
+      ELSE IF P = id[1] THEN [h |-> HandleOf(P), sfx |-> TagName(ev), len |-> HandleLen(P) + 3]
+      ELSE \* the primary handle '!' and a tag that begins with '!': '!local-foo', '!local-', '!local'
+           [h |-> "!", sfx |-> CASE id[2] = "e" -> "local-" \o TagName(ev) [] id[2] = "q" -> "local-" [] OTHER -> "local", len |-> FullLen(ev)]
 \* the simple-key limit of the library's reader: a key whose ':' comes more than 1024 characters after its start (or on
 \* another line) is not a simple key (scanner.py stale_possible_simple_keys)
 ReaderLimit == 1024
@@ -404,7 +437,7 @@ WrittenBound(t, i, au) == IF i > Len(t) THEN 2 ELSE (IF Escaped(t[i], au) THEN E
 WrittenBoundOf(ev, au) == IF IsLong(ev) THEN 2 + ev.n * (IF Escaped(ev.s, au) THEN EscLen(ev.s) ELSE 1) ELSE WrittenBound(Text(ev.s), 1, au)
 CheckSimpleKey(r, ev, nx) ==
   LET len == (IF ev.a \/ ev.k = "Alias" THEN AnchorLen - 1 ELSE 0)
-             + (IF ev.k # "Alias" /\ HasTag(ev) THEN TagLen ELSE 0)
+             + (IF ev.k # "Alias" /\ HasTag(ev) THEN PrepareTag(ev, opt).len ELSE 0)
              + (IF ev.k = "Scalar" THEN Len(TextOf(ev)) ELSE 0)
       an == Analyze(AnalysisText(ev), r.au)
       written == IF ev.k = "Scalar" THEN len - Len(TextOf(ev)) + WrittenBoundOf(ev, r.au) ELSE len
@@ -424,14 +457,16 @@ ProcessAnchor(r, ev) ==
   IF ev.k = "Alias" THEN Tok(Indicator(r, AnchorLen, TRUE, FALSE, FALSE), "ALIAS", "x", "")
   ELSE IF ev.a THEN Tok(Indicator(r, AnchorLen, TRUE, FALSE, FALSE), "ANCHOR", "x", "")
   ELSE r
-TagName(ev) == IF ev.t THEN "explicit" ELSE IF ev.k = "Scalar" THEN "str" ELSE IF ev.k = "SequenceStart" THEN "seq" ELSE "map"
 ProcessTag(r, ev) ==
   LET style == ChooseScalarStyle(r, ev)
       elide == IF ev.k = "Scalar"
                THEN (~r.canon \/ ~HasTag(ev)) /\ ((style = "" /\ Imp0(ev)) \/ (style # "" /\ Imp1(ev)))
                ELSE (~r.canon \/ ~HasTag(ev)) /\ ~ev.t
   IN  IF elide THEN r
-      ELSE IF HasTag(ev) THEN Tok(Indicator(r, TagLen, TRUE, FALSE, FALSE), "TAG", "", TagName(ev))
+      ELSE IF HasTag(ev)
+      THEN LET pt == PrepareTag(ev, opt) IN
+           \* a handle with nothing after it is not a tag the library's reader accepts ("expected URI")
+           [Tok(Indicator(r, pt.len, TRUE, FALSE, FALSE), "TAG", pt.h, pt.sfx) EXCEPT !.badtag = @ \/ (pt.h # "" /\ pt.sfx = "")]
       ELSE Tok(Indicator(r, 1, TRUE, FALSE, FALSE), "TAG", "!", "")                                    \* tag = '!'
 
 ProcessScalar(r, ev) ==
@@ -558,14 +593,14 @@ Top(g) == Last(g.mon)
 NodeEvents(g) ==
   LET first == Top(g) = "D0"                           \* the root node: may carry the document's anchor
       as == IF Anchors /\ first THEN BOOLEAN ELSE {FALSE}
-      ts == IF ExplicitTags THEN BOOLEAN ELSE {FALSE}
-  IN  {[k |-> "Scalar", f |-> FALSE, s |-> s, a |-> FALSE, t |-> t, n |-> 0, y |-> "P"] : s \in ScalarKinds \ {"z"}, t \in ts}
-      \cup {[k |-> "Scalar", f |-> FALSE, s |-> "z", a |-> FALSE, t |-> FALSE, n |-> 0, y |-> "P"] : s \in ScalarKinds \cap {"z"}}
-      \cup {[k |-> "Scalar", f |-> FALSE, s |-> c, a |-> FALSE, t |-> t, n |-> n, y |-> y] : c \in LongClasses, n \in LongLens, y \in LongStyles, t \in ts}
+      gs == {NoTag} \cup (IF ExplicitTags THEN {<<"2", "e">>} ELSE {}) \cup {TagOfName(x) : x \in TagIds}
+  IN  {[k |-> "Scalar", f |-> FALSE, s |-> s, a |-> FALSE, t |-> tg # NoTag, g |-> tg, n |-> 0, y |-> "P"] : s \in ScalarKinds \ {"z"}, tg \in gs}
+      \cup {[k |-> "Scalar", f |-> FALSE, s |-> "z", a |-> FALSE, t |-> FALSE, g |-> NoTag, n |-> 0, y |-> "P"] : s \in ScalarKinds \cap {"z"}}
+      \cup {[k |-> "Scalar", f |-> FALSE, s |-> c, a |-> FALSE, t |-> tg # NoTag, g |-> tg, n |-> n, y |-> y] : c \in LongClasses, n \in LongLens, y \in LongStyles, tg \in gs}
       \cup (IF g.anch THEN {Event("Alias")} ELSE {})
       \cup (IF Len(g.mon) - 2 >= MaxDepth THEN {}
-            ELSE {[k |-> IF c \in {"BS", "FS"} THEN "SequenceStart" ELSE "MappingStart", f |-> c \in {"FS", "FM"}, s |-> "-", a |-> a, t |-> t, n |-> 0, y |-> "P"]
-                  : c \in CollKinds, a \in as, t \in ts})
+            ELSE {[k |-> IF c \in {"BS", "FS"} THEN "SequenceStart" ELSE "MappingStart", f |-> c \in {"FS", "FM"}, s |-> "-", a |-> a, t |-> tg # NoTag, g |-> tg, n |-> 0, y |-> "P"]
+                  : c \in CollKinds, a \in as, tg \in gs})
 Closing(g) == CASE Top(g) = "S"  -> {Event("StreamEnd")}
                 [] Top(g) = "D0" -> {[Event("Scalar") EXCEPT !.s = "w"]}
                 [] Top(g) = "D1" -> {Event("DocumentEnd")}
@@ -628,7 +663,7 @@ Init == /\ opt \in Options
                  line |-> 0, col |-> 0, ws |-> TRUE, indn |-> TRUE, open |-> FALSE,
                  bi |-> BestIndent(opt), bw |-> BestWidth(opt), canon |-> opt.canon, au |-> opt.au,
                  enc |-> "N", bom |-> "none", cur |-> NewLine, lines |-> <<>>, entries |-> <<>>, marks |-> <<>>, ctoks |-> <<>>,
-                 kcol |-> 0, kline |-> 0, skeys |-> <<>>, crash |-> FALSE, act |-> "-"]
+                 kcol |-> 0, kline |-> 0, skeys |-> <<>>, badtag |-> FALSE, crash |-> FALSE, act |-> "-"]
         /\ gen = [mon |-> <<"S">>, n |-> 0, docs |-> 0, anch |-> FALSE]
         /\ evs = <<>>
 
@@ -671,7 +706,7 @@ Wanted ==
   IN  [i \in DOMAIN s |->
         LET e == s[i] IN
         [k |-> e.k, a |-> IF e.a \/ e.k = "Alias" THEN "x" ELSE "",
-         t |-> IF e.k \in {"Scalar", "SequenceStart", "MappingStart"} /\ HasTag(e) THEN TagName(e) ELSE "",
+         t |-> IF e.k \in {"Scalar", "SequenceStart", "MappingStart"} /\ HasTag(e) THEN FullTag(e) ELSE "",
          v |-> IF e.k = "Scalar" THEN (IF IsLong(e) THEN <<e.s, e.n>> ELSE e.s) ELSE ""]]
 HG == (Done /\ opt.canon) => C!Denotes(em.ctoks, Wanted)
 \* L's own bookkeeping is consistent with what it wrote: an entry that is first on its line sits at the line's indentation
@@ -683,5 +718,7 @@ EntriesConsistent == Done => \A i \in DOMAIN em.entries : LET e == em.entries[i]
 \* the real readers decide; with FixD12 it is checked as an invariant.
 KeysReadable == \A i \in DOMAIN em.skeys : em.skeys[i].same /\ em.skeys[i].len <= ReaderLimit
 HA == FixD12 => KeysReadable
+\* ... and every tag L writes is one the reader can read: never a handle with an empty suffix
+HT == ~em.badtag
 Complete == Done => (em.states = <<>> /\ em.indents = <<>> /\ em.indent = -1 /\ em.flow = 0 /\ gen.mon = <<"END">>)
 =============================================================================
